@@ -103,9 +103,10 @@ class Ctx:
         ev["coverage"].update(self.notes)
         if not ev["coverage"]["samples"]:
             ev["coverage"]["samples"] = ["(no case was run: the check stopped early)"]
-        os.makedirs(os.path.join(ROOT, "evidence"), exist_ok=True)
-        with open(os.path.join(ROOT, "evidence", self.pid + ".json"), "w") as f:
-            json.dump(ev, f, indent=1, default=str)
+        if not getattr(self, "replaying", False):
+            os.makedirs(os.path.join(ROOT, "evidence"), exist_ok=True)
+            with open(os.path.join(ROOT, "evidence", self.pid + ".json"), "w") as f:
+                json.dump(ev, f, indent=1, default=str)
         for key, what, path, no_input in self.violations:
             print("VIOLATION property=%s replay=%s%s" % (self.pid, path, " no-failing-input-found" if no_input else ""))
             print("  -> " + what[:600])
